@@ -140,7 +140,12 @@ def search_and_judge(ctx, st, case, pat, built, atol, hints=(None, None, None), 
             st.count("searches_with_verbose_output")
         if "atol" not in kw:
             st.count("searches_relying_on_the_default_tolerance")
-        res = mofun.find_pattern_in_structure(atoms, patoms, **kw)
+        if case["s"] % 7 == 3:
+            # every option given by position, in the documented order
+            res = mofun.find_pattern_in_structure(atoms, patoms, hints[0], hints[1], hints[2], False, atol, kw.get("verbose", False))
+            st.count("searches_with_positional_arguments")
+        else:
+            res = mofun.find_pattern_in_structure(atoms, patoms, **kw)
     except Exception as e:
         if type(e).__name__ == "PostBroken":
             raise
@@ -280,6 +285,8 @@ def requirements(stats, tier):
     if stats.get("occurrences_after_inplace_edit") < (300 if tier == "quick" else 20000) or stats.nseen("inplace_edit") < 4:
         need.append("searches of an object edited in place since its last search: %d clear occurrences, edit kinds %s" %
                     (stats.get("occurrences_after_inplace_edit"), sorted(stats.sets.get("inplace_edit", []))))
+    if stats.get("searches_with_positional_arguments") < 20:
+        need.append("searches with every option given by position: %d" % stats.get("searches_with_positional_arguments"))
     if stats.get("searches_with_verbose_output") < 20 or stats.get("searches_relying_on_the_default_tolerance") < 20:
         need.append("call forms: %d verbose searches, %d relying on the default tolerance" % (stats.get("searches_with_verbose_output"), stats.get("searches_relying_on_the_default_tolerance")))
     if stats.get("copies_in_cells_narrower_than_the_pattern") < (40 if tier == "quick" else 3000):
